@@ -2004,6 +2004,11 @@ func main() {
 	t0 := time.Now()
 	if os.Getenv("C14_ONLY") != "proxy" {
 		runStack(rep, tier)
+		if sw, err := newStackWorld(); err != nil {
+			rep.Incomplete = "managed-listed family: " + err.Error()
+		} else {
+			runManagedListed(rep, sw)
+		}
 	}
 	rep.Coverage["stack_wall_s"] = time.Since(t0).Seconds()
 	t0 = time.Now()
